@@ -478,6 +478,28 @@ func (ex *Exec) specCall(sc *Scope, e *ast.CallExpr) Val {
 			return Bool{smt.App(f, terms...)}
 		}
 		return Str{smt.App(f, terms...)}
+	case "scanpos", "scanlines", "scanline":
+		r, ok := ex.refOf(sc.St, arg(0))
+		if !ok {
+			specErr(e, "%s: argument is not a reader or scanner reference", fname)
+		}
+		ex.mu.Lock()
+		if rd, isSc := ex.scanReader[r]; isSc {
+			r = rd
+		}
+		ex.mu.Unlock()
+		switch fname {
+		case "scanpos":
+			p, ok := sc.St.Ghost["scanpos:"+r]
+			if !ok {
+				return Int{"0"} // no scanner created on this reader yet
+			}
+			return Int{p}
+		case "scanlines":
+			return Int{smt.App(ex.scanFns()[0], r)}
+		default:
+			return Str{smt.App(ex.scanFns()[1], r, argI(1))}
+		}
 	case "at":
 		n, _ := strconv.Atoi(e.Args[0].(*ast.BasicLit).Value)
 		name := e.Args[1].(*ast.Ident).Name
@@ -625,6 +647,10 @@ func flatten(v Val) []string {
 		return []string{term(v)}
 	case Err:
 		return []string{v.Nil}
+	case Opaque:
+		if v.ID != "" {
+			return []string{v.ID}
+		}
 	}
 	outside("cannot flatten %T", v)
 	return nil
@@ -655,6 +681,10 @@ func flatSorts(v Val) []string {
 		return []string{"Ref"}
 	case Err:
 		return []string{"Bool"}
+	case Opaque:
+		if v.ID != "" {
+			return []string{"Ref"}
+		}
 	}
 	outside("cannot flatten %T", v)
 	return nil
@@ -675,6 +705,7 @@ func (ex *Exec) Mem(s Slice, x string) string {
 		ex.Ctx.AddAxiom("(forall ((a " + as + ") (n Int) (k Int)) (! (=> (and (<= 0 k) (< k n)) (" + f + " a n (select a k))) :pattern ((" + f + " a n (select a k)))))")
 		ex.Ctx.AddAxiom("(forall ((a " + as + ") (n Int) (x " + es + ")) (! (=> (" + f + " a n x) (and (<= 0 (" + f + "_wit a n x)) (< (" + f + "_wit a n x) n) (= (select a (" + f + "_wit a n x)) x))) :pattern ((" + f + " a n x))))")
 		ex.Ctx.AddAxiom("(forall ((a " + as + ") (n Int) (x " + es + ")) (! (=> (<= n 0) (not (" + f + " a n x))) :pattern ((" + f + " a n x))))")
+		ex.Ctx.AddAxiom("(forall ((a " + as + ") (n Int) (x " + es + ")) (! (=> (>= n 0) (= (" + f + " a (+ n 1) x) (or (" + f + " a n x) (= (select a n) x)))) :pattern ((" + f + " a (+ n 1) x))))")
 	}
 	return smt.App(f, s.Arr, s.Len, x)
 }
